@@ -475,6 +475,7 @@ theorem facts_c01 :
     Facts.c01TrackClass = ["TrackNames(convtypes.ResourceIngressClass,?,source.Type,source.FullName())"] ∧
     Facts.c01TrackAdded =
       ["TrackNames(convtypes.ResourceIngress,name,convtypes.ResourceHABackend,backend.ID)",
+       "TrackNames(convtypes.ResourceIngress,name,ctx,tcpPortTrackingName(port))",
        "TrackNames(convtypes.ResourceIngress,name,ctx,normalizeHostname(\"\",port))",
        "TrackNames(convtypes.ResourceIngress,name,ctx,hostname)",
        "TrackNames(convtypes.ResourceIngress,name,ctx,normalizeHostname(rule.Host,port))",
